@@ -1726,6 +1726,56 @@ func factRel(f Fact, isA, isB func(ssa.Value) bool) string {
 
 func isValue(v ssa.Value) func(ssa.Value) bool { return func(x ssa.Value) bool { return x == v } }
 
+// carriers: v and every value of the same type that v flows into unchanged inside its function -
+// phis (`if a { err = f() } else { err = g() }; if err != nil`) and loads of locals it is stored to.
+func carriers(v ssa.Value) []ssa.Value {
+	out := []ssa.Value{v}
+	for i := 0; i < len(out); i++ {
+		rr := out[i].Referrers()
+		if rr == nil {
+			continue
+		}
+		add := func(x ssa.Value) {
+			for _, o := range out {
+				if o == x {
+					return
+				}
+			}
+			out = append(out, x)
+		}
+		for _, r := range *rr {
+			switch r := r.(type) {
+			case *ssa.Phi:
+				if types.Identical(r.Type(), out[i].Type()) {
+					add(r)
+				}
+			case *ssa.Store:
+				if al, ok := r.Addr.(*ssa.Alloc); ok && r.Val == out[i] && al.Referrers() != nil {
+					for _, x := range *al.Referrers() {
+						if u, ok := x.(*ssa.UnOp); ok && u.Op == token.MUL {
+							add(u)
+						}
+					}
+				}
+			}
+		}
+	}
+	return out
+}
+
+// isCarrierOf: the value is v or one of its carriers.
+func isCarrierOf(v ssa.Value) func(ssa.Value) bool {
+	cs := carriers(v)
+	return func(x ssa.Value) bool {
+		for _, c := range cs {
+			if c == x {
+				return true
+			}
+		}
+		return false
+	}
+}
+
 // flagAfterFirst decides, for a call `target` inside fn that takes a boolean flag, whether every
 // execution of the call AFTER the first one in the same invocation of fn sees the flag true.
 // The flag is an SSA phi web (a local bool variable): the function is abstracted to the boolean
